@@ -80,6 +80,16 @@ def r_fieldmap(ctx):
     if not ti or not tf:
         res.coverage_lost(into, "raw parts functions not found")
     else:
+        # decomposition and reconstruction MOVE every part: a clone leaves the original behind - inside a vector whose destructor is suppressed it is never
+        # dropped (a stateful builder is leaked and user Clone code runs)
+        for nm, II in ((into, Iinto), (frm, Ifrom)):
+            res.inst(sample={"function": nm, "check": "parts are moved, not cloned"}, func=nm)
+            cl = [e for e in II.all_effects(("USER",)) if e["what"] == "clone"]
+            if cl:
+                res.fail(nm, "clones", "a part is cloned instead of moved (%s): the original stays behind and is never dropped, and user Clone code runs"
+                         % (cl[0]["target"],), span=span_of_effect(cl[0]))
+            else:
+                res.ok()
         # parts field -> vector path (from into_raw_parts)
         m1 = {}
         memparts_pos = {}
@@ -1160,6 +1170,19 @@ def r_iter(ctx):
                 ok = False
             if ok:
                 res.ok()
+    # every local exact-size iterator states its size: an `Iterator` impl without `size_hint` reports (0, None) while `len()` says otherwise
+    # (`size_hint() == (len(), Some(len()))` is the ExactSizeIterator contract; std adaptors rely on it)
+    for im in fx.impls_of("core::iter::ExactSizeIterator"):
+        stp = im["self_ty"].get("path")
+        if im["self_ty"].get("k") != "adt" or stp not in fx.adts:
+            continue
+        its = [i2 for i2 in fx.impls_of("core::iter::Iterator") if i2["self_ty"].get("path") == stp]
+        res.inst(sample={"exact_size_iterator": stp, "iterator_impl_items": [it["name"] for i2 in its for it in i2["items"]]})
+        if its and not any(it["name"] == "size_hint" for i2 in its for it in i2["items"]):
+            res.fail(stp, "size_hint-missing", "`%s` implements ExactSizeIterator but its Iterator impl does not define size_hint: the default (0, None) contradicts len()" % stp,
+                     span="%s:%s" % (its[0]["span"]["file"], its[0]["span"]["line"]))
+        else:
+            res.ok()
     # any further method of the cursor iterator that moves a cursor is outside the checked discipline: fail closed
     for im in fx.impls:
         if im["self_ty"].get("path") != "iter::Iter" or (im.get("trait") or "") not in ("core::iter::Iterator", "core::iter::DoubleEndedIterator", "core::iter::ExactSizeIterator"):
